@@ -254,6 +254,11 @@ def sub_threads(case):
 
     ny, nx, nt = case["shape"]
     tyx = np.ascontiguousarray(np.array(case["values"], dtype="float64").reshape(ny, nx, nt).transpose(2, 0, 1).astype("int16"))
+    for (r, c, series) in case.get("threshold_pixels", []):
+        # pixels whose lag-1 correlation is exactly 0.5 (state carried from a neighbour would show as a thread-count dependence)
+        if r < ny and c < nx and nt >= len(series):
+            tyx[:, r, c] = -3000
+            tyx[:len(series), r, c] = series
     old = numba.get_num_threads()
     try:
         numba.set_num_threads(1)
@@ -426,9 +431,18 @@ def run(ctx):
         rec.case("threads", case, nontrivial=True, cls="rows=%d" % case["shape"][0])
         sub_threads(case)
 
-    th = st.builds(lambda ny, nx, nt, v, ks: {"shape": [ny, nx, nt], "values": (v * (ny * nx * nt // len(v) + 1))[:ny * nx * nt], "threads": ks, "repeat": 2},
+    from harness import gens as _g
+    thp = st.lists(st.tuples(st.integers(0, 39), st.integers(0, 5), _g.exact_half_series()), max_size=6)
+    def _th(ny, nx, nt, v, ks, tp):
+        if tp:
+            nt = 6  # the exact-half templates have six steps; trailing gaps would move their correlation off the threshold
+            v = [abs(q) % 3000 + 200 * (i % 6) * (1 + i // 6 % 3) for i, q in enumerate(v)]  # mostly rising pixels (lag-1 > 0.5) around them
+        return {"shape": [ny, nx, nt], "values": (v * (ny * nx * nt // len(v) + 1))[:ny * nx * nt], "threads": ks, "repeat": 2,
+                "threshold_pixels": [list(t) for t in tp]}
+
+    th = st.builds(_th,
                    st.integers(1, 40), st.integers(1, 6), st.integers(6, 30), st.lists(st.integers(-3000, 9000), min_size=50, max_size=400),
-                   st.lists(st.integers(2, 16), min_size=2, max_size=5, unique=True))
+                   st.lists(st.integers(2, 16), min_size=2, max_size=5, unique=True), thp)
     ctx.given("threads", th, ctx.n(25, 300), fn=f_th, shrink=False)
 
     # schedules on the wrapper: enumerate all schedules with <= 3 switches (line level)
